@@ -25,6 +25,7 @@ type Ctx struct {
 	Tier  string
 	runs  map[string]*Run
 	Stats map[string]interface{}
+	mag   *magAnalyzer
 }
 
 func NewCtx(P *Program, tier string) *Ctx {
